@@ -1,5 +1,5 @@
 """Property -> rules registry."""
-from .rules import kernel, incr, rot, sched, meas, integrator, kal, purity, diff, sensor, layout, geo, errmodel, frames, simrules
+from .rules import kernel, incr, rot, sched, meas, integrator, kal, purity, diff, sensor, layout, geo, errmodel, frames, simrules, dtype
 
 PROPS = {
     'C01': dict(
@@ -122,14 +122,14 @@ PROPS = {
                    'and "never larger than the prior" as numerical facts (they follow '
                    'algebraically)', 'inputs not modified: decided under C19 (PUR-ARG)']),
     'C08': dict(
-        rules=[kal.vl_rules, kal.q_psd],
+        rules=[kal.vl_rules, kal.q_psd, lambda c: dtype.dtype_inherit(c, ('kalman', 'filters'))],
         decided=['Van Loan block layout and transposition: expm([[F, Q],[0, -F^T]] dt), returns '
                  '(E00, E01 E00^T)', 'process noise at the call site is G diag(q^2) G^T',
                  'step passed equals the interval of the averaged states'],
         undecided=['exactness of scipy.linalg.expm', 'symmetry/PSD of the computed product in '
                    'floating point', 'composition over partitions (numerical)']),
     'C19': dict(
-        rules=[purity.pur_rules, purity.rng_src, purity.sch_rules],
+        rules=[purity.pur_rules, purity.rng_src, purity.sch_rules, dtype.dtype_inherit],
         decided=['no public callable writes into an argument, a constructor-argument field or a '
                  'shared constant (may-alias effect analysis with interprocedural summaries; '
                  'pandas-3 copy-on-write model)',
@@ -184,7 +184,7 @@ PROPS = {
                    'second-order agreement with the feedforward filter']),
     'C16': dict(
         rules=[kernel.sib_grav, geo.geo_frame, geo.geo_perturb, geo.geo_curv, geo.parity,
-               geo.role_radii],
+               geo.role_radii, lambda c: dtype.dtype_inherit(c, ('transform', 'earth'))],
         decided=['NED axes of mat_en_from_ll are the partial derivatives of lla_to_ecef with '
                  'lengths given by principal_radii (symbolic proof for all lat/lon/alt)',
                  'perturb_lla, compute_lla_difference and lla_to_ned agree with that geometry to '
